@@ -112,6 +112,11 @@ class Recorder18(lib.Recorder):
 class Runner18(lib.Runner):
     """One store instance of a session (c06_lib.Runner interface: st, rec, t0, lazy, call())."""
 
+    recorder_class = Recorder18       # harness/c18_fault.py: a recorder that keeps commit steps that raise
+
+    def wrap_connection(self):
+        """hook (harness/c18_fault.py puts a delegating connection that can raise in front of the engine)"""
+
     def __init__(self, session, lazy):
         self.session = session
         self.layer = session.layer
@@ -136,7 +141,8 @@ class Runner18(lib.Runner):
         # the flush done while opening, dated from the outside
         self.t0 = self.clock.now
         self.t0_store = _fake_us_or_none(getattr(self.st, "last_commit", None))
-        self.rec = Recorder18(self.st, self.path, self.clock)
+        self.wrap_connection()
+        self.rec = self.recorder_class(self.st, self.path, self.clock)
         self.steps = []
         self.own_ok = True
         self.cached = set()       # the harness's own account of Datastore.bucket_instances
@@ -343,6 +349,8 @@ def model_case(c):
 
 
 class Session:
+    runner_class = None               # default Runner18 (harness/c18_fault.py: RunnerF)
+
     def __init__(self, sq, Event, lazy, layer="storage"):
         if layer not in LAYERS:
             raise ValueError("layer " + repr(layer))
@@ -368,7 +376,7 @@ class Session:
         return self.cur.bucket_ids()
 
     def open(self):
-        self.cur = Runner18(self, self.lazy)
+        self.cur = (self.runner_class or Runner18)(self, self.lazy)
         self.cur.index = len(self.segments)
         self.segments.append(self.cur)
 
